@@ -38,10 +38,34 @@ def entails(pc, goal):
 
 
 _TERM_CACHE = {}
+import re as _re
+_FAM_STRIP = _re.compile(r"^(H0!|hv_|hvG_|hG_|h_|G0!|hdom|hval|hlen)")
+
+
+def _family(arr):
+    """Name family of the array a select/store goes into (heap component or
+    ghost), independent of its version."""
+    cur = arr
+    for _ in range(64):
+        if not z3.is_app(cur):
+            return None
+        k = cur.decl().kind()
+        if k in (z3.Z3_OP_SELECT, z3.Z3_OP_STORE):
+            cur = cur.arg(0)
+            continue
+        if k == z3.Z3_OP_UNINTERPRETED and cur.num_args() == 0:
+            nm = cur.decl().name()
+            nm = nm.rsplit("!", 1)[0] if nm.rsplit("!", 1)[-1].isdigit() else nm
+            nm = nm.rstrip("@")
+            nm = _FAM_STRIP.sub("", nm)
+            nm = nm.rsplit("!", 1)[0] if nm.rsplit("!", 1)[-1].isdigit() else nm
+            return nm
+        return None
+    return None
 
 
 def _terms_of(e0):
-    """All index-position ground terms of one formula, grouped by sort
+    """Index-position ground terms of one formula: {sort id: [(family, term)]}
     (cached per formula: path conditions share most of their conjuncts)."""
     hit = _TERM_CACHE.get(e0.get_id())
     if hit is not None and hit[0].eq(e0):
@@ -51,11 +75,12 @@ def _terms_of(e0):
     todo = [e0]
     visited = set()
 
-    def add(t):
-        if t.get_id() in seen:
+    def add(t, fam):
+        key = (t.get_id(), fam)
+        if key in seen:
             return
-        seen.add(t.get_id())
-        by_sort.setdefault(t.sort().get_id(), []).append(t)
+        seen.add(key)
+        by_sort.setdefault(t.sort().get_id(), []).append((fam, t))
     while todo:
         e = todo.pop()
         if e.get_id() in visited:
@@ -67,14 +92,10 @@ def _terms_of(e0):
             k = e.decl().kind()
             ch = e.children()
             if k in (z3.Z3_OP_SELECT, z3.Z3_OP_STORE) and len(ch) >= 2:
-                add(ch[1])
+                add(ch[1], _family(ch[0]))
             elif k == z3.Z3_OP_UNINTERPRETED and ch:
                 for c in ch:
-                    add(c)
-            elif k == z3.Z3_OP_EQ:
-                for c in ch:
-                    if z3.is_const(c) and c.decl().kind() == z3.Z3_OP_UNINTERPRETED:
-                        add(c)
+                    add(c, "fn:" + e.decl().name())
             todo.extend(ch)
     if len(_TERM_CACHE) > 200000:
         _TERM_CACHE.clear()
@@ -82,14 +103,17 @@ def _terms_of(e0):
     return by_sort
 
 
-def _index_terms(exprs, sort, cap=150):
+def _index_terms(exprs, sort, cap=150, families=None):
     """Ground terms of `sort` that occur as index of a select/store (or as
-    argument of an uninterpreted function) in exprs."""
+    argument of an uninterpreted function) in exprs; when `families` is
+    given, only indices into arrays of those families (the triggers)."""
     sid = sort.get_id()
     seen = set()
     out = []
     for e in exprs:
-        for t in _terms_of(e).get(sid, ()):
+        for fam, t in _terms_of(e).get(sid, ()):
+            if families is not None and fam is not None and fam not in families:
+                continue
             if t.get_id() not in seen:
                 seen.add(t.get_id())
                 out.append(t)
@@ -98,16 +122,54 @@ def _index_terms(exprs, sort, cap=150):
     return out
 
 
+def _triggers(q):
+    """Families of the arrays the bound variable indexes in the body."""
+    tr = q.__dict__.get("_triggers", 0)
+    if tr != 0:
+        return tr
+    probe = z3.Const("qprobe!" + str(id(q)), q.sort)
+    fams = set()
+    try:
+        body = q.body(probe)
+        todo = [body] if body is not None else []
+        visited = set()
+        ok = True
+        while todo:
+            e = todo.pop()
+            if e.get_id() in visited:
+                continue
+            visited.add(e.get_id())
+            if z3.is_app(e):
+                k = e.decl().kind()
+                ch = e.children()
+                if k in (z3.Z3_OP_SELECT, z3.Z3_OP_STORE) and len(ch) >= 2 and ch[1].eq(probe):
+                    f = _family(ch[0])
+                    if f is None:
+                        ok = False
+                    else:
+                        fams.add(f)
+                elif k == z3.Z3_OP_UNINTERPRETED and any(c.eq(probe) for c in ch):
+                    fams.add("fn:" + e.decl().name())
+                todo.extend(ch)
+        tr = fams if (ok and fams) else None
+    except Exception:
+        tr = None
+    q.__dict__["_triggers"] = tr
+    return tr
+
+
 def instantiate(qhyps, base, rounds=3):
     """Ground instances of the quantified hypotheses at the index terms of
-    the formulas in `base` (and of the instances, for `rounds` rounds)."""
+    the formulas in `base` (and of the instances, for `rounds` rounds).
+    A hypothesis  forall k. phi(k)  is instantiated where k would index the
+    same arrays as in phi (trigger-based matching)."""
     insts = []
     seen = set()
     pool = list(base)
     for _ in range(rounds):
         new = []
         for q in qhyps:
-            for t in _index_terms(insts[::-1] + pool, q.sort):
+            for t in _index_terms(insts[::-1] + pool, q.sort, families=_triggers(q)):
                 key = (id(q), t.get_id())
                 if key in seen:
                     continue
